@@ -49,7 +49,7 @@ def valued_random(schema, rnd, tier):
 
 def plans():
     ps = []
-    obs = metagen.battery(['sel', 'nav', 'nav', 'card', 'sub'], per_step=3)
+    obs = metagen.battery(['sel', 'nav', 'nav', 'card', 'sub'], per_step=3, sticky=2)
     for name, b in c02.QUICK.items():
         ps.append({'name': name, 'schema': name, 'bound': {'quick': b, 'thorough': c02.THOROUGH[name]},
                    'stages': STAGES, 'budget': 2500, 'obs': obs,
